@@ -7,7 +7,7 @@ use crate::sym::Sc;
 use nalgebra::Const;
 
 /// enclosure of exp(z) for |z| <= 1/2: Taylor polynomial of degree 9 with remainder |z|^10 e^{1/2} / 10!
-fn exp_enclosure<S: Sc>(z: S) -> (S, S) {
+pub fn exp_enclosure<S: Sc>(z: S) -> (S, S) {
     let mut term = S::lit(1.0);
     let mut sum = S::lit(1.0);
     for k in 1..=9 {
@@ -78,6 +78,127 @@ fn rk_quadrature<S: Sc>(kind: Kind, cmul: f64) {
     }
 }
 
+
+
+/// NATIVE calibration of a harness constant (it selects which sub-family of inputs is analysed, nothing is decided by
+/// it): the error estimate kappa of the first multistep step after the Runge-Kutta start-up on y' = lambda*y, y0 = 1,
+/// found by bisection on the tolerance (the start-up is rejected iff kappa > tol; observable through the number of
+/// derivative evaluations before the first yielded point).  The estimate scales with |y0|.
+pub fn startup_error(kind: Kind, lambda: f64, dt_min: f64, dt_max: f64) -> f64 {
+    let calls = |tol: f64| -> usize {
+        let c = Conf::<f64> { t0: 0.0, t1: 50.0, dt_min, dt_max, tol, y0: vec![1.0] };
+        let log = new_log::<f64>();
+        let run = run_d1(kind, &c, fn_rhs::<f64, Const<1>, _>(log.clone(), move |_t: f64, y: &[f64]| y.iter().map(|v| lambda * *v).collect()), 1, &log, 0);
+        run.items.first().map_or(usize::MAX, |i| i.calls)
+    };
+    let base = calls(1e6);
+    let (mut lo, mut hi) = (1e-16f64, 1e6f64);
+    for _ in 0..200 {
+        let mid = (lo * hi).sqrt();
+        if calls(mid) == base {
+            hi = mid
+        } else {
+            lo = mid
+        }
+    }
+    hi
+}
+
+/// tolerance window (relative to |y0|) in which the first attempt is rejected and the repeated start-up (retry
+/// factor (tol / 2 err)^(1/O), symbolic) is accepted: estimate / tolerance between 1.2 and 2.5
+pub fn rejected_startup_window(kind: Kind, lambda: f64, dt_min: f64, dt_max: f64) -> (f64, f64) {
+    let k = startup_error(kind, lambda, dt_min, dt_max);
+    (k / 2.5, k / 1.2)
+}
+
+/// tolerance window in which the first attempt is accepted without a step-size increase
+pub fn accepted_startup_window(kind: Kind, lambda: f64, dt_min: f64, dt_max: f64) -> (f64, f64) {
+    let k = startup_error(kind, lambda, dt_min, dt_max);
+    (1.05 * k, 8.0 * k)
+}
+
+/// multistep solvers on y' = lambda*y (concrete lambda and step bounds; start, tolerance symbolic) with the tolerance
+/// so tight relative to the first trial step that the start-up is REJECTED by its first predictor-corrector /
+/// BDF step and repeated with a smaller step: every consecutive pair of yielded points is locally accurate
+/// (C tol h plus the fifth-order term of the Runge-Kutta start-up steps, which no estimator sees)
+pub fn multistep_linear<S: Sc>(kind: Kind, lambda: f64, dt_min: f64, dt_max: f64, window: (f64, f64), items: usize, global: bool, y0c: Option<f64>) {
+    // (a concrete start makes the rejected attempt's retry factor an algebraic function of the tolerance alone:
+    //  univariate queries)
+    let y0 = match y0c {
+        Some(v) => S::lit(v),
+        None => S::input("y0", -3.0, 3.0),
+    };
+    S::assume(S::b_ge(y0.sabs(), S::lit(0.5)));
+    let t0 = S::input("t0", -1.0, 1.0);
+    let tol = S::input("tol", 1e-12, 1e-2);
+    S::assume(S::b_le(y0.sabs() * S::lit(window.0), tol));
+    S::assume(S::b_le(tol, y0.sabs() * S::lit(window.1)));
+    let _ = S::tape; // (no arbitrary function here)
+    S::no_div_zero_forks();
+    let lam = S::lit(lambda);
+    let c = Conf { t0, t1: t0 + S::lit(50.0), dt_min: S::lit(dt_min), dt_max: S::lit(dt_max), tol, y0: vec![y0] };
+    let log = new_log::<S>();
+    let run = run_d1(kind, &c, fn_rhs::<S, Const<1>, _>(log.clone(), move |_t: S, y: &[S]| y.iter().map(|v| lam * *v).collect()), items, &log, 0);
+    S::reach("multistep-linear");
+    let bdf = matches!(kind, Kind::BDF2 | Kind::BDF6);
+    let mut prev = (t0, y0);
+    if global {
+        // C04: every yielded state within K tol (K tol n for BDF) of the true solution at the yielded time
+        for (n, item) in run.items.iter().enumerate() {
+            let z = lam * (item.t - t0);
+            let (e, r) = exp_enclosure(z);
+            let err = (item.y[0] - y0 * e).sabs() + y0.sabs() * r;
+            let k = if bdf { 8.0 * (n as f64 + 1.0) } else { 8.0 };
+            let bound = tol * S::lit(k) + S::lit(1e-13);
+            S::prove_m("yielded-state-within-K-tol-of-the-true-solution-at-the-yielded-time", S::b_le(err, bound), S::b_gt(err, bound * S::lit(50.0) + S::lit(1e-9)));
+        }
+        return;
+    }
+    for item in run.items.iter() {
+        let h = item.t - prev.0;
+        S::prove("time-advances", S::b_lt(S::lit(0.0), h));
+        let z = lam * h;
+        let (e, r) = exp_enclosure(z);
+        let err = (item.y[0] - prev.1 * e).sabs() + prev.1.sabs() * r;
+        let z5 = (z * z * z * z * z).sabs();
+        let unit = if bdf { tol } else { tol * h };
+        let bound = unit * S::lit(8.0) + prev.1.sabs() * z5 * S::lit(0.05) + S::lit(1e-13);
+        S::prove_m("accepted-step-within-C-tol-h-of-the-exact-flow", S::b_le(err, bound), S::b_gt(err, bound * S::lit(50.0) + S::lit(1e-9)));
+        prev = (item.t, item.y[0]);
+    }
+}
+
+
+/// problems every solver of order >= 2 integrates exactly: y' = a + b t (a, b, start value, tolerance, end time symbolic;
+/// start time and step bounds seeded concrete).  Every yielded pair lies on the exact flow
+/// y(t+h) = y(t) + a h + b (t h + h^2/2): the local error is zero, whatever tolerance was asked for.  This is the
+/// member of the property's family that exposes a stage or history term evaluated at the wrong TIME.
+pub fn affine_in_t<S: Sc>(kind: Kind, t0c: f64, dt_min: f64, dt_max: f64, horizon: f64) {
+    let a = S::input("a", -2.0, 2.0);
+    let b = S::input("b", -2.0, 2.0);
+    let y0 = S::input("y0", -3.0, 3.0);
+    let tol = S::input("tol", 1e-10, 1e-3);
+    let len = S::input("len", 0.01, horizon);
+    let t0 = S::lit(t0c);
+    S::no_div_zero_forks();
+    let c = Conf { t0, t1: t0 + len, dt_min: S::lit(dt_min), dt_max: S::lit(dt_max), tol, y0: vec![y0] };
+    let log = new_log::<S>();
+    let run = run_d1(kind, &c, fn_rhs::<S, Const<1>, _>(log.clone(), move |t: S, y: &[S]| y.iter().map(|_| a + b * t).collect()), kind.startup() + 6, &log, 0);
+    S::reach("affine-in-t");
+    // (the BDF estimator compares with the next lower order, which is NOT exact here: it may legitimately ask for a
+    //  step below dt_min; the Runge-Kutta and Adams estimates vanish identically)
+    let bdf = matches!(kind, Kind::BDF2 | Kind::BDF6);
+    let ok = run.build_err.is_none() && (run.err.is_none() || (bdf && run.err.as_ref().map_or(false, |e| e.starts_with("MinimumTimeDeltaExceeded"))));
+    S::prove("no-error-on-a-problem-the-method-integrates-exactly", S::b_const(ok));
+    let mut prev = (t0, y0);
+    for item in run.items.iter() {
+        let h = item.t - prev.0;
+        let exact = prev.1 + a * h + b * (prev.0 * h + h * h * S::lit(0.5));
+        S::prove_m("yielded-pair-lies-on-the-exact-flow", S::b_close(item.y[0], exact, S::lit(1e-9)), S::b_gt((item.y[0] - exact).sabs(), S::lit(1e-5)));
+        prev = (item.t, item.y[0]);
+    }
+}
+
 pub fn run(pr: &mut PropRun, t: &Tier) {
     pr.funcs(&["ivp::rk::RungeKuttaSolver::step for RK45 and RK23 (accept decision, update, controller)"]);
     pr.bound("one accepted Runge-Kutta step from an ARBITRARY symbolic state (complete for one-step methods): linear test equation y' = lambda*y (lambda, y, dt_min, dt_max, tol symbolic; exact flow enclosed by a degree-9 Taylor polynomial with explicit remainder; the property's coupling |lambda| dt_max <= 2 tol^(1/5) resp. tol^(1/3) as polynomial constraints); bound C*tol*h with C = 4; RK23 in the quick tier, RK45 (degree-11 obligations) in the thorough tier");
@@ -86,6 +207,37 @@ pub fn run(pr: &mut PropRun, t: &Tier) {
     //  vacuous there and the solver immediately finds polynomials whose leading error the embedded estimator cannot
     //  see -- an over-demanding oracle, removed; see DESIGN.md)
     let _ = rk_quadrature::<f64>;
+    for kind in Kind::ADAPTIVE {
+        // (Runge-Kutta: the two embedded solutions agree only up to the rounding of the tableau constants, the
+        //  controller then takes a fourth root of a symbolic quotient: 145 s each; BDF2: 264 paths, 320 s)
+        if !t.thorough && matches!(kind, Kind::RK45 | Kind::RK23 | Kind::BDF2) {
+            continue;
+        }
+        let mut cfg = t.cfg(&format!("C02:affine-in-t({})", kind.name()));
+        cfg.max_decisions = 300;
+        run_h!(pr, cfg, affine_in_t, kind, -0.75, 0.015625, 0.125, 1.5);
+    }
+    for kind in [Kind::Adams3, Kind::Adams5] {
+        for lambda in [-1.25, 0.75] {
+            for (name, w, y0c) in [("rejected-start-up", rejected_startup_window(kind, lambda, 0.001, 0.2), Some(-1.5)), ("accepted-start-up", accepted_startup_window(kind, lambda, 0.001, 0.2), None)] {
+                let mut cfg = t.cfg(&format!("C02:multistep-linear({},lambda={},{})", kind.name(), lambda, name));
+                cfg.max_decisions = 200;
+                run_h!(pr, cfg, multistep_linear, kind, lambda, 0.001, 0.2, w, kind.startup() + 3, false, y0c);
+            }
+        }
+    }
+    for kind in [Kind::BDF2, Kind::BDF6] {
+        // (BDF halves / doubles its step: with concrete bounds every step size is concrete, all queries linear in (y0, tol))
+        for lambda in [-1.25, 0.75] {
+            // (45 - 135 s each: one member in the quick tier)
+            if !t.thorough && !(kind == Kind::BDF2 && lambda < 0.0) {
+                continue;
+            }
+            let mut cfg = t.cfg(&format!("C02:multistep-linear({},lambda={})", kind.name(), lambda));
+            cfg.max_decisions = 400;
+            run_h!(pr, cfg, multistep_linear, kind, lambda, 0.001, 0.2, (1e-9, 1e-3), kind.startup() + 3, false, None);
+        }
+    }
     for kind in [Kind::RK23, Kind::RK45] {
         // (RK45: degree-11 polynomial obligations, undecided within 60 s: thorough tier only)
         if kind == Kind::RK45 && !t.thorough {
